@@ -12,6 +12,14 @@ from common import hx
 #                     | ("mdf", sub, eof) | ("rev", sub, eof, w) | ("wrap", sub, eof);   object 0 = base
 
 
+class ViewLength(Exception):
+    """a view reports a logical length other than the one its construction implies."""
+
+    def __init__(self, kind, got, want):
+        super().__init__(f"{kind} view reports length {got}, its content has {want}")
+        self.kind, self.got, self.want = kind, got, want
+
+
 def build_real(base: bytes, specs: Sequence[tuple]):
     from smpl_extract.alcohol.mdf import MdfStream
     from smpl_extract.util.fat import FileStream
@@ -30,7 +38,9 @@ def build_real(base: bytes, specs: Sequence[tuple]):
             o = SectorStream(sub, sp[2], sp[3])
         elif k == "mdf":
             o = MdfStream(sub)
-            assert o.end_of_file == sp[2], (o.end_of_file, sp[2])
+            if o.end_of_file != sp[2]:
+                # the user-data view of k whole raw sectors (+ stray bytes) is k * 2048 bytes long (S178)
+                raise ViewLength("mdf", int(o.end_of_file), int(sp[2]))
         elif k == "rev":
             o = StreamReversed(sub, sp[2], sp[3])
         elif k == "wrap":
